@@ -209,7 +209,7 @@ type c15Input struct {
 }
 
 func c15E2(tier string, o *E2Out) {
-	o.Rule = "E2: two-file (thorough three-file) chains: (a) every documented single-valued option of the table (21 per process, 8 per project), one at a time, base in {unset,v1} x override in {unset,v2}, on a process present in both files that also carries untouched settings; (b) environment entry A with every value of {\"\", x, a=b, 'x y', '\"q\"', k=v=w} or absent in base x override, per process and global, next to an untouched entry B; (c) depends_on keys and processes only-in-base / only-in-override / both; (d) extends vs naming both files (working_dir empty / relative / absolute in the base). Oracle: the merged project equals a single-file load of the reference fold (later wins per key, environment split at the first '='). Non-trivial = both files mention something."
+	o.Rule = "E2: two-file (thorough three-file) chains: (a) every documented single-valued option of the table (21 per process, 8 per project), one at a time, base in {unset,v1} x override in {unset,v2}, on a process present in both files that also carries untouched settings, the later file naming only that option or restating the whole definition; (b) environment entry A with every value of {\"\", x, a=b, 'x y', '\"q\"', k=v=w} or absent in base x override, per process and global, next to an untouched entry B; (c) depends_on keys and processes only-in-base / only-in-override / both; (d) extends vs naming both files (working_dir empty / relative / absolute in the base). Oracle: the merged project equals a single-file load of the reference fold (later wins per key, environment split at the first '='). Non-trivial = both files mention something."
 	o.Exhaustive = true
 	dir, _ := os.MkdirTemp("", "vh-c15-")
 	defer os.RemoveAll(dir)
@@ -298,6 +298,12 @@ func c15E2(tier string, o *E2Out) {
 					ov["is_tty"] = false // the override file mentions the process, nothing else
 				}
 				run("proc-option", op.path, []cfgMap{skeleton(b), over})
+				if bset && oset {
+					// the later file restates the whole definition and differs in this one option only
+					rest := baseProc()
+					rest.set(op.path, op.v2)
+					run("proc-option-restated", op.path, []cfgMap{skeleton(b), {"version": "0.5", "processes": cfgMap{"p": rest}}})
+				}
 				if tier == "thorough" && bset && oset {
 					third := cfgMap{"version": "0.5", "processes": cfgMap{"p": cfgMap{"description": "third"}}}
 					run("proc-option-3files", op.path, []cfgMap{skeleton(b), over, third})
